@@ -4,6 +4,7 @@ from __future__ import annotations
 
 import random
 import time
+from threading import Lock
 from collections.abc import Iterable
 from typing import Final
 
@@ -38,6 +39,9 @@ class MailboxSnapshot(MailboxInterface):
                  'session_flags', 'exists', 'recent', 'unseen', 'first_unseen',
                  'next_uid']
 
+    _last_uid_validity = 0
+    _uid_validity_lock = Lock()
+
     def __init__(self, mailbox_id: ObjectId, readonly: bool, uid_validity: int,
                  permanent_flags: Iterable[Flag],
                  session_flags: frozenset[Flag],
@@ -58,12 +62,17 @@ class MailboxSnapshot(MailboxInterface):
     @classmethod
     def new_uid_validity(cls) -> int:
         """Generate a new UID validity value for a mailbox, where the first
-        two bytes are time-based and the second two bytes are random.
+        two bytes are time-based and the second two bytes are random. A value
+        is never issued twice by the same process.
 
         """
         time_part = int(time.time()) % 65535
         rand_part = random.randint(0, 65535)  # noqa: S311
-        return (time_part << 16) + rand_part
+        value = (time_part << 16) + rand_part
+        with MailboxSnapshot._uid_validity_lock:
+            value = max(value, MailboxSnapshot._last_uid_validity + 1)
+            MailboxSnapshot._last_uid_validity = value
+        return value
 
     @property
     def flags(self) -> frozenset[Flag]:
